@@ -190,7 +190,10 @@ def _decompress_body_gzip(data: bytes, *, max_output_size: int | None = None) ->
     """
     do = zlib.decompressobj(_GZIP_WBITS)
     if max_output_size is None:
-        return do.decompress(data) + do.flush()
+        out = do.decompress(data) + do.flush()
+        if not do.eof:
+            raise DecompressionError("Truncated gzip stream: input ended before the end-of-stream marker")
+        return out
 
     chunks: list[bytes] = []
     total = 0
@@ -206,7 +209,10 @@ def _decompress_body_gzip(data: bytes, *, max_output_size: int | None = None) ->
             if total > max_output_size:
                 raise DecompressionLimitExceeded(f"Decompressed gzip output exceeds max_output_size={max_output_size}")
             chunks.append(chunk)
-        if not chunk and not do.unconsumed_tail:
+        # Past the end-of-stream marker zlib produces nothing more, yet keeps
+        # any trailing input in ``unconsumed_tail``: without this test the
+        # loop would spin on it forever.
+        if do.eof or (not chunk and not do.unconsumed_tail):
             break
     tail = do.flush()
     if tail:
@@ -214,6 +220,8 @@ def _decompress_body_gzip(data: bytes, *, max_output_size: int | None = None) ->
         if total > max_output_size:
             raise DecompressionLimitExceeded(f"Decompressed gzip output exceeds max_output_size={max_output_size}")
         chunks.append(tail)
+    if not do.eof:
+        raise DecompressionError("Truncated gzip stream: input ended before the end-of-stream marker")
     return b"".join(chunks)
 
 
